@@ -201,6 +201,29 @@ func (d *Decoder) ReadList(flag int32) (interface{}, error) {
 	}
 }
 
+// _maxPrealloc is how many elements a decoder allocates on the word of a declared length alone
+const _maxPrealloc = 1024
+
+// preallocLen is the number of elements to allocate for a list that declares length elements
+// before any of them has been read
+func preallocLen(length int) int {
+	if length > _maxPrealloc {
+		return _maxPrealloc
+	}
+	return length
+}
+
+// grownLen is the next size of a list that holds n elements (all of them read) and declares length
+func grownLen(n, length int) int {
+	if n < _maxPrealloc {
+		n = _maxPrealloc
+	}
+	if n > length/2 {
+		return length
+	}
+	return 2 * n
+}
+
 // readTypedList read typed list
 // Include 3 formats:
 // list ::= x55 type value* 'Z'   # variable-length list
@@ -240,10 +263,21 @@ func (d *Decoder) readTypedList(tag byte) (interface{}, error) {
 		return nil, newCodecError("readTypedList", "can't find list type %s", listTyp)
 	}
 
-	aryValue := reflect.MakeSlice(aryType, length, length)
+	// the length is only declared by the input: a limited number of elements is allocated up front
+	// and the list grows as elements really arrive
+	size := preallocLen(length)
+	aryValue := reflect.MakeSlice(aryType, size, size)
 	holder := d.addDecoderRef(aryValue)
 
 	for j := 0; j < length || isVariableArr; j++ {
+		if !isVariableArr && j >= size {
+			size = grownLen(size, length)
+			grown := reflect.MakeSlice(aryType, size, size)
+			reflect.Copy(grown, aryValue)
+			aryValue = grown
+			holder.change(aryValue)
+		}
+
 		item, err := d.ReadData()
 		if err != nil {
 			if err == io.EOF && isVariableArr {
@@ -299,11 +333,21 @@ func (d *Decoder) readUntypedList(tag byte) (interface{}, error) {
 		return nil, nil
 	}
 
-	ary := make([]interface{}, length)
+	// the length is only declared by the input: a limited number of elements is allocated up front
+	// and the list grows as elements really arrive
+	ary := make([]interface{}, preallocLen(length))
 	aryValue := reflect.ValueOf(ary)
 	holder := d.addDecoderRef(aryValue)
 
 	for j := 0; j < length || isVariableArr; j++ {
+		if !isVariableArr && j >= len(ary) {
+			grown := make([]interface{}, grownLen(len(ary), length))
+			copy(grown, ary)
+			ary = grown
+			aryValue = reflect.ValueOf(ary)
+			holder.change(aryValue)
+		}
+
 		it, err := d.ReadData()
 		if err != nil {
 			if err == io.EOF && isVariableArr {
